@@ -224,6 +224,23 @@ func (c *Ctx) Finish(verifDir string, seed int64, start time.Time, checkerCmd st
 		}
 		cov["atom_valuations"] = v
 	}
+	// Comparison with the committed baseline of instance counts (universe_baseline.json, written only by
+	// "hrverif baseline"): a rule that finds fewer constructs than when its instances were confirmed by reading
+	// may be passing vacuously. Reported as a note, never as an alarm: code legitimately loses instances.
+	perRuleTotal := map[string]int{}
+	for r, m := range ruleCounts {
+		for _, n := range m {
+			perRuleTotal[r] += n
+		}
+	}
+	if shr := c.compareBaseline(verifDir, perRuleTotal); len(shr) > 0 {
+		cov["below_baseline"] = shr
+		for _, m := range shr {
+			fmt.Println("note: " + m)
+		}
+	} else {
+		cov["below_baseline"] = []string{}
+	}
 	for k, v := range extra {
 		cov[k] = v
 	}
@@ -253,4 +270,48 @@ func (c *Ctx) Finish(verifDir string, seed int64, start time.Time, checkerCmd st
 		return 1
 	}
 	return 0
+}
+
+// Baseline is the committed record of how many constructs each rule and each
+// universe covered on the tree the rule instances were confirmed on.
+type Baseline struct {
+	Obligations map[string]map[string]int `json:"obligations_per_rule"` // property -> rule -> count
+	Universes   map[string]map[string]int `json:"universe_sizes"`       // property -> universe -> size
+}
+
+func (c *Ctx) compareBaseline(verifDir string, perRule map[string]int) []string {
+	b, err := os.ReadFile(filepath.Join(verifDir, "universe_baseline.json"))
+	if err != nil {
+		return nil
+	}
+	var bl Baseline
+	if json.Unmarshal(b, &bl) != nil {
+		return nil
+	}
+	var out []string
+	for r, n := range bl.Obligations[c.Prop] {
+		if perRule[r] < n {
+			out = append(out, fmt.Sprintf("%s: rule %s has %d obligations on this tree, %d on the baseline tree: it checks fewer constructs than when its instances were confirmed", c.Prop, r, perRule[r], n))
+		}
+	}
+	for u, n := range bl.Universes[c.Prop] {
+		if len(c.Universes[u]) < n {
+			out = append(out, fmt.Sprintf("%s: universe %q has %d members on this tree, %d on the baseline tree", c.Prop, u, len(c.Universes[u]), n))
+		}
+	}
+	sort.Strings(out)
+	return out
+}
+
+// BaselineOf extracts the counts of a finished run.
+func (c *Ctx) BaselineOf() (map[string]int, map[string]int) {
+	ob := map[string]int{}
+	for _, o := range c.Obs {
+		ob[o.Rule]++
+	}
+	un := map[string]int{}
+	for k, v := range c.Universes {
+		un[k] = len(v)
+	}
+	return ob, un
 }
